@@ -134,29 +134,21 @@ def collapseUnderscores : Bytes → Bytes
                   else 95 :: collapseUnderscores r
     else b :: collapseUnderscores r
 
-/-- `wordBoundary1 = ([a-zA-Z])([A-Z][a-z])` → `$1_$2`; a match consumes three bytes. -/
-def wordBoundary1 : Bytes → Bytes
-  | x :: y :: z :: r =>
-    if isLetter x && isUpper y && isLower z then x :: 95 :: y :: z :: wordBoundary1 r
-    else x :: wordBoundary1 (y :: z :: r)
-  | l => l
-
-/-- `wordBoundary2 = ([a-zA-Z])([0-9])` → `$1_$2`; a match consumes two bytes. -/
-def wordBoundary2 : Bytes → Bytes
-  | x :: y :: r =>
-    if isLetter x && isDigit y then x :: 95 :: y :: wordBoundary2 r
-    else x :: wordBoundary2 (y :: r)
-  | l => l
-
-/-- `wordBoundary3 = ([0-9])([a-zA-Z])` → `$1_$2` -/
-def wordBoundary3 : Bytes → Bytes
-  | x :: y :: r =>
-    if isDigit x && isLetter y then x :: 95 :: y :: wordBoundary3 r
-    else x :: wordBoundary3 (y :: r)
-  | l => l
+/-- the loop of `toUpperUnderscore` (since /repo 19993f7): an underscore goes in before `ident[i]` at every word
+    boundary found on the string as it stands — letter|Upper+lower, letter|digit, digit|letter (the look-around
+    of the reference implementation); `prev` is `ident[i-1]` -/
+def wordBoundaries : Option UInt8 → Bytes → Bytes
+  | _, [] => []
+  | prev, c :: r =>
+    let boundary := match prev with
+      | none => false
+      | some p =>
+        (isLetter p && isUpper c && (match r with | n :: _ => isLower n | [] => false)) ||
+        (isLetter p && isDigit c) || (isDigit p && isLetter c)
+    (if boundary then [95, c] else [c]) ++ wordBoundaries (some c) r
 
 def toUpperUnderscore (ident : Bytes) : Bytes :=
-  (wordBoundary3 (wordBoundary2 (wordBoundary1 (collapseUnderscores (stripUnderscores ident))))).map toUpperByte
+  (wordBoundaries none (collapseUnderscores (stripUnderscores ident))).map toUpperByte
 
 /-! ## html tags -/
 
